@@ -396,7 +396,7 @@ func (sel *Selection) Delete() (err error) {
 			if err == nil {
 				err = fmt.Errorf("error during endEdit: %w", endErr)
 			} else {
-				err = fmt.Errorf("error during endEdit: %v, previous error: %w", endErr, err)
+				err = fmt.Errorf("error during endEdit: %w, previous error: %w", endErr, err)
 			}
 		}
 	}()
